@@ -320,3 +320,35 @@ def typed_index_siblings(F, ck):
               'SIBLING DISAGREEMENT: %s and %s index a shared collection differently: native %s, circuit %s - e.g. the filter of the wrong looking column is applied in one of them, so the two evaluators constrain different polynomials' %
               (fa.name, fb.name, sorted((k, v) for k, v in a.items() if b.get(k) != v), sorted((k, v) for k, v in b.items() if a.get(k) != v)), '%s:%d' % (fb.file, fb.line))
     ck.floor('R10.9', 'typed index expressions compared', n, 4)
+    # running counters (offsets into the flat list of helper / Z openings) are advanced at the same loop depth by both siblings
+    import collections
+    from .facts import kids as _kids
+
+    def counters(fn):
+        out = collections.Counter()
+
+        def rec(n, depth):
+            if not isinstance(n, dict):
+                return
+            if n.get('k') == 'AssignOp' and n['l'].get('k') == 'Local':
+                out[(depth, n.get('op'))] += 1
+            d2 = depth + 1 if n.get('k') in ('For', 'While', 'Loop') else depth
+            for c in _kids(n):
+                rec(c, d2)
+        rec(fn.body, 0)
+        return out
+    pairs = list(SIBLING_EVALUATORS) + [('CtlCheckVars::from_proof', 'CtlCheckVarsTarget::from_proof')]
+    m = 0
+    for qa, qb in pairs:
+        ca_ = [f for f in F.find(qa, crate='starky') if f.body is not None]
+        cb_ = [f for f in F.find(qb, crate='starky') if f.body is not None]
+        if len(ca_) != 1 or len(cb_) != 1:
+            ck.ob('R10.9', 'anchor:counters:' + qa.split('::')[-1], False, 'ANCHOR-MISSING %s / %s' % (qa, qb))
+            continue
+        a, b = counters(ca_[0]), counters(cb_[0])
+        m += sum(a.values())
+        ok = a == b
+        ck.ob('R10.9', 'counters:%s' % ca_[0].qual, ok, 'running counters advanced at the same loop depths (%s)' % dict(a) if ok else
+              'SIBLING DISAGREEMENT: %s advances its running counters at (loop depth, op) %s but %s at %s: one of them reads the helper / Z openings of later challenges or lookups at wrong offsets' %
+              (ca_[0].qual, sorted(a.items()), cb_[0].qual, sorted(b.items())), '%s:%d' % (ca_[0].file, ca_[0].line))
+    ck.floor('R10.9', 'running-counter updates compared', m, 3)
